@@ -20,9 +20,10 @@ inductive CmpMode where
 
 /-- How `__hash__` uses a field. `plain`: `hash(self.f)` inside the hashed tuple;
     `content`: a content digest (`hash_df_runtime(df)`, `ImmutableMatrix(m)`);
-    `orderedItems`: `hash(tuple(d.items()))`. -/
+    `orderedItems`: `hash(tuple(d.items()))`; `itemSet`: `hash(frozenset(d.items()))`;
+    `contentPart`: a digest of a part of the contents (`frozenset(g.nodes)`). -/
 inductive HashMode where
-  | plain | content | orderedItems
+  | plain | content | contentPart | orderedItems | itemSet
   deriving DecidableEq, Repr, Inhabited
 
 /-- Python values as far as `==`/`hash` of the value classes can see them. -/
@@ -41,6 +42,8 @@ inductive Val where
   | tup (items : Val)
   /-- an instance of a table class; `vals` is a `nil`/`cons` chain, positional w.r.t. `ClassSpec.fields` -/
   | obj (cls : String) (vals : Val)
+  /-- hash key only: the *set* of entries of a mapping (`frozenset(d.items())`), compared up to order by `keyEqv` -/
+  | dset (kvs : List (String × String))
   /-- hash key only: hashing raised `TypeError` (unhashable) or the class is not in the table -/
   | err (why : String)
   deriving DecidableEq, Repr, Inhabited
@@ -73,9 +76,11 @@ abbrev Table := List ClassSpec
 def Table.find (T : Table) (c : String) : Option ClassSpec :=
   T.find? (fun s => s.name == c)
 
-/-- Python `dict.__eq__`: same size and every entry of `a` is an entry of `b`. -/
+/-- Python `dict.__eq__` (also equality of the `frozenset`s of the items): same size, every entry of `a`
+    is an entry of `b` and conversely.  (For real dicts — distinct keys — one inclusion implies the
+    other; stating both keeps the relation symmetric without a side condition.) -/
 def dictEq (a b : List (String × String)) : Bool :=
-  a.length == b.length && a.all (fun kv => b.contains kv)
+  a.length == b.length && a.all (fun kv => b.contains kv) && b.all (fun kv => a.contains kv)
 
 /-! ### per-field modes (non-recursive helpers; `dflt` is the plain result) -/
 
@@ -85,10 +90,37 @@ def contentKey (dflt : Val) : Val → Val
   | .frame _ c => .atom c
   | _ => dflt
 
+/-- The part of a content rendering before the first `|` (the harness renders a graph as `nodes|edges`). -/
+def partOf (c : String) : String := String.ofList (c.toList.takeWhile (· != '|'))
+
+/-- What a digest of a part of the contents sees. -/
+def contentPartKey (dflt : Val) : Val → Val
+  | .ident _ c => .atom (partOf c)
+  | .frame _ c => .atom (partOf c)
+  | _ => dflt
+
 /-- What `hash(tuple(d.items()))` sees: the entries in insertion order. -/
 def itemsKey (dflt : Val) : Val → Val
   | .dict kvs => .dict kvs
   | _ => dflt
+
+/-- What `hash(frozenset(d.items()))` sees: the entries as a set. -/
+def itemSetKey (dflt : Val) : Val → Val
+  | .dict kvs => .dset kvs
+  | _ => dflt
+
+/-- Equality of hash keys: structural, except that entry sets are compared as sets.
+    `hash a = hash b` is modelled as `H (hashKey a) = H (hashKey b)` for every `H` that respects `keyEqv`. -/
+def keyEqv : Val → Val → Bool
+  | .atom s, .atom t => s == t
+  | .dict a, .dict b => a == b
+  | .dset a, .dset b => dictEq a b
+  | .nil, .nil => true
+  | .cons h t, .cons h' t' => keyEqv h h' && keyEqv t t'
+  | .tup a, .tup b => keyEqv a b
+  | .obj c a, .obj c' b => c == c' && keyEqv a b
+  | .err v, .err w => v == w
+  | _, _ => false
 
 /-- Content comparison of a field (`to_dict_of_dicts(g) == …`, `df.equals(…)`). -/
 def eqContent (dflt : Bool) : Val → Val → Bool
@@ -101,7 +133,9 @@ def fieldKey (m : HashMode) (plainKey : Val) (h : Val) : Val :=
   match m with
   | .plain => plainKey
   | .content => contentKey plainKey h
+  | .contentPart => contentPartKey plainKey h
   | .orderedItems => itemsKey plainKey h
+  | .itemSet => itemSetKey plainKey h
 
 /-- The comparison of a field compared in mode `m`. -/
 def fieldEq (m : CmpMode) (plainEq : Bool) (h h' : Val) : Bool :=
@@ -124,11 +158,17 @@ def fieldLawful (f_hash : Option HashMode) (f_cmp : Option CmpMode) (dflt : Bool
   | some _, none => false
   | some .plain, some .plain => dflt
   | some .content, some .content => isIdentLike h || dflt
+  | some .contentPart, some .content => isIdentLike h || dflt
   | some .plain, some .content => !isIdentLike h && dflt
   | some .content, some .plain => !isIdentLike h && dflt
+  | some .contentPart, some .plain => !isIdentLike h && dflt
   | some .orderedItems, some _ =>
     match h with
     | .dict kvs => decide (kvs.length ≤ 1)
+    | _ => !isIdentLike h && dflt
+  | some .itemSet, some _ =>
+    match h with
+    | .dict _ => true
     | _ => !isIdentLike h && dflt
 
 /-! ### `hash` as the key that is hashed -/
@@ -148,6 +188,7 @@ def hashKey (T : Table) : Val → Val
     match T.find c with
     | none => .err ("unknown class " ++ c)
     | some sp => .obj c (hashFs T sp.fields vs)
+  | .dset kvs => .dset kvs
   | .err w => .err w
 def hashFs (T : Table) : List FieldSpec → Val → Val
   | f :: fs, .cons h t =>
@@ -172,7 +213,7 @@ def eqV (T : Table) : Val → Val → Bool
     match T.find c with
     | none => false
     | some sp =>
-      (!sp.hashGuard || hashKey T (.obj c vs) == hashKey T (.obj c' vs')) && eqFs T sp.fields vs vs'
+      (!sp.hashGuard || keyEqv (hashKey T (.obj c vs)) (hashKey T (.obj c' vs'))) && eqFs T sp.fields vs vs'
   | _, _ => false
 def eqFs (T : Table) : List FieldSpec → Val → Val → Bool
   | [], .nil, .nil => true
@@ -199,6 +240,7 @@ def lawful (T : Table) : Val → Bool
     match T.find c with
     | none => true
     | some sp => sp.hashGuard || lawfulFs T sp.fields vs
+  | .dset _ => true
   | .err _ => true
 def lawfulFs (T : Table) : List FieldSpec → Val → Bool
   | f :: fs, .cons h t =>
@@ -237,9 +279,12 @@ def fieldCheck (ok : Kind → Bool) (f : FieldSpec) : Bool :=
   | some _, none => false
   | some .plain, some .plain => ok f.kind
   | some .content, some .content => ok f.kind
+  | some .contentPart, some .content => ok f.kind
   | some .plain, some .content => f.kind.noIdent && ok f.kind
   | some .content, some .plain => f.kind.noIdent && ok f.kind
+  | some .contentPart, some .plain => f.kind.noIdent && ok f.kind
   | some .orderedItems, some _ => f.kind.noIdent && f.kind.noDict && ok f.kind
+  | some .itemSet, some _ => f.kind.noIdent && ok f.kind
 
 /-- `kindOK T n k`: every value of kind `k` is `lawful` (fuel `n` bounds the nesting). -/
 def kindOK (T : Table) : Nat → Kind → Bool
@@ -267,9 +312,12 @@ def directBad (sp : ClassSpec) : List String :=
     | some _, none => true
     | some .plain, some .plain => false
     | some .content, some .content => false
+    | some .contentPart, some .content => false
     | some .plain, some .content => !f.kind.noIdent
     | some .content, some .plain => !f.kind.noIdent
-    | some .orderedItems, some _ => !(f.kind.noIdent && f.kind.noDict))).map (·.name)
+    | some .contentPart, some .plain => !f.kind.noIdent
+    | some .orderedItems, some _ => !(f.kind.noIdent && f.kind.noDict)
+    | some .itemSet, some _ => !f.kind.noIdent)).map (·.name)
 
 def classOK (T : Table) (c : String) : Bool := kindOK T (4 * T.length + 8) (.cls c)
 
